@@ -242,9 +242,11 @@ fn exclusive_system<R: MkResult>(uid: SysUid)
         let ctx = begin_run(uid);
         let second = ctx.script.as_ref().map(|s| s.take_twice).unwrap_or(false);
         let mut held = Held::default();
+        let world_changed = [world.is_react_resource_changed::<RA>(), world.is_react_resource_changed::<RB>()];
         let (readings, second_take, changed) = { let mut readers = state.get_mut(world); let ch = readers.changed(); let (r, s) = readers.sample(true, second, &mut held); (r, s, ch) };
         push(Ev::RunBegin{ run: ctx.run, sys: uid, local_n: *local, captured_n: captured, readings: Some(readings), second_take });
         push(Ev::ChangeSample{ changed, resample: false });
+        push(Ev::WorldChangeSample{ changed: world_changed });
         drop(held);
         let err = { let mut c = world.commands(); queue_script(&mut c, uid, &ctx) };
         let (again, changed) = { let mut readers = state.get_mut(world); let ch = readers.changed(); (readers.sample(false, false, &mut Held::default()).0, ch) };
@@ -702,10 +704,23 @@ fn perform(c: &mut Commands, action: Action, resolved: &Resolved)
         Action::SysEvent(e, _, id) => c.send_system_event(SystemCommand(e), Pay::<1>::new(id)),
         Action::Broadcast(0, id) => c.react().broadcast(Pay::<0>::new(id)),
         Action::Broadcast(_, id) => c.react().broadcast(Pay::<1>::new(id)),
-        Action::EntityEvent(e, 0, id) => c.react().entity_event(e, Pay::<0>::new(id)),
-        Action::EntityEvent(e, _, id) => c.react().entity_event(e, Pay::<1>::new(id)),
-        Action::Insert(e, 0, v) => c.react().insert(e, CA(v)),
-        Action::Insert(e, _, v) => c.react().insert(e, CB(v)),
+        // the same call through every way of obtaining a `ReactCommands`: `Commands::react`, a reborrow of it, its
+        // inner `Commands`, and `EntityCommands::react` (only for an entity that exists when the call is made)
+        Action::EntityEvent(e, ty, id) =>
+        {
+            let via_entity = id % 4 == 1 && c.get_entity(e).is_some();
+            macro_rules! send { ($rc:expr) => { if ty == 0 { $rc.entity_event(e, Pay::<0>::new(id)) } else { $rc.entity_event(e, Pay::<1>::new(id)) } } }
+            if via_entity { let mut ec = c.entity(e); send!(ec.react()); }
+            else if id % 4 == 2 { let mut rc = c.react(); send!(rc.reborrow()); }
+            else if id % 4 == 3 { let mut rc = c.react(); send!(rc.commands().react()); }
+            else { send!(c.react()); }
+        }
+        Action::Insert(e, comp, v) =>
+        {
+            let via_entity = v % 2 == 1 && c.get_entity(e).is_some();
+            macro_rules! ins { ($rc:expr) => { if comp == 0 { $rc.insert(e, CA(v)) } else { $rc.insert(e, CB(v)) } } }
+            if via_entity { let mut ec = c.entity(e); ins!(ec.react()); } else { ins!(c.react()); }
+        }
         Action::Mutate(e, 0) => c.syscall(e, mutate_sys::<CA>),
         Action::Mutate(e, _) => c.syscall(e, mutate_sys::<CB>),
         Action::TriggerMutation(e, 0) => c.queue(move |w: &mut World| React::<CA>::trigger_mutation(e, w)),
